@@ -42,8 +42,14 @@ else:
     # register mock tests that no diff registered
     modrs = os.path.join(wt, "src/vm/tests/mock_tests/mod.rs")
     mtxt = open(modrs).read()
+    runtxt = open(os.path.join(demo, "RUN.md")).read() if os.path.exists(os.path.join(demo, "RUN.md")) else ""
     for f in glob.glob(os.path.join(demo, "*.rs")):
         nm = os.path.basename(f)[:-3]
+        if not nm.startswith("mock_test") and (("tests/%s.rs" % nm) in runtxt or ("--test %s" % nm) in runtxt) and ("mock_tests/%s.rs" % nm) not in runtxt:
+            # an integration test: goes into the crate's tests/ directory
+            shutil.copy(f, os.path.join(wt, "tests/"))
+            res.setdefault("demo_install", []).append(["integration test " + nm, 0])
+            continue
         if nm.startswith("mock_test") and ("mod %s;" % nm) not in mtxt:
             mtxt += "\nmod %s;\n" % nm
             res.setdefault("demo_install", []).append(["auto-registered " + nm, 0])
